@@ -168,6 +168,17 @@ def run_case(case, ctx):
             if tree.index != i:
                 bad.append((how, f"{how}() landed on {tree.index}"))
             report(bad, how, opts)
+        # copies: Tree.copy() of a positioned tree and ts.aslist() with the same options (both duplicate the C tree)
+        for i, tree in enumerate(ts.aslist(**kw)):
+            ctx.count("check_tree:aslist")
+            bad = check_tree(tree, m, opts, deep=False)
+            if tree.index != i:
+                bad.append(("aslist", f"aslist()[{i}] has index {tree.index}"))
+            report(bad, "aslist(**options)", opts)
+        for tree in ts.trees(**kw):
+            if rng.random() < 0.5:
+                ctx.count("check_tree:copy")
+                report(check_tree(tree.copy(), m, opts, deep=False), "trees() -> copy()", opts)
         # one Tree object reused: forward sweep, step off the end, backward sweep, first/last on a positioned tree
         tree = tskit.Tree(ts, **kw)
         seq = (["first"] + ["next"] * ntrees + ["last"] + ["prev"] * ntrees + ["first", "last", "first"]
